@@ -196,7 +196,13 @@ class MultiAgentReplayBuffer:
             return np.array(value) if not isinstance(value, np.ndarray) else value
 
         results = [[] for _ in range(len(args))]
-        num_entries = len(next(iter(args[0].values())))
+        # Number of environments: measure an array leaf, not the dict/tuple container
+        first = next(iter(args[0].values()))
+        if isinstance(first, dict):
+            first = next(iter(first.values()))
+        elif isinstance(first, tuple):
+            first = first[0]
+        num_entries = len(first)
         for i in range(num_entries):
             for j, arg in enumerate(args):
                 new_dict = {}
